@@ -21,7 +21,10 @@ def run(drv, prog, inputs):
     names = list(inputs.keys())
     for n in names:
         spec = inputs[n]
-        if spec["ty"] == "int":
+        if "ref" in spec:
+            # an object created by an earlier step of the program (so that it counts as a program INPUT for end-to-end instances)
+            setattr(ctx, n, drv.opnd(spec["ref"]))
+        elif spec["ty"] == "int":
             setattr(ctx, n, rt.PrivVal(spec["v"]))
         elif spec["ty"] == "bool":
             setattr(ctx, n, bo.PrivValBool(spec["v"]))
